@@ -440,3 +440,234 @@ Proof.
     + intros (m & [<-|[]] & Hr). exact Hr.
     + intros Hr. exists []. split; [left; reflexivity|exact Hr].
 Qed.
+
+(* ------------------------------------------------------------------ "**" *)
+
+Lemma star_matcher_spec : forall dg n, star_matcher dg n = true <-> star_ok dg n.
+Proof.
+  intros dg n. unfold star_matcher, star_ok. destruct dg; simpl.
+  - split; auto.
+  - destruct n as [|c r].
+    + split; [discriminate|]. intros [H|(c & r & H & _)]; discriminate.
+    + rewrite negb_true_iff. split.
+      * intros H. right. exists c, r. split; [reflexivity|]. intros ->. discriminate.
+      * intros [H|(c' & r' & E & Hc)]; [discriminate|]. inversion E; subst.
+        destruct (N.eqb_spec c' DOT); [contradiction|reflexivity].
+Qed.
+
+Lemma gs_child_glob_dir : forall fs dg wd d c,
+  gs_child fs dg wd d c <->
+  exists new nl, glob_dir fs d (star_matcher dg) wd = Some (new, nl) /\ In c new.
+Proof.
+  intros fs dg wd d c. split.
+  - intros (ents & e & Er & Hi & Hk & Hs & ->).
+    destruct (glob_dir fs d (star_matcher dg) wd) as [[new nl]|] eqn:E.
+    + exists new, nl. split; [reflexivity|]. apply (proj2 (glob_dir_in _ _ _ _ _ _ _ E)).
+      exists ents, e. repeat split; auto.
+      * apply keep_entry_spec. exact Hk.
+      * apply star_matcher_spec. exact Hs.
+    + unfold glob_dir in E. rewrite Er in E. discriminate.
+  - intros (new & nl & E & Hi). apply (proj1 (glob_dir_in _ _ _ _ _ _ _ E)) in Hi.
+    destruct Hi as (ents & e & Er & Hie & Hk & Hm & ->). exists ents, e. repeat split; auto.
+    + apply keep_entry_spec. exact Hk.
+    + apply star_matcher_spec. exact Hm.
+Qed.
+
+(* every path the walk yields is the start or lies zero or more matching levels below a stacked directory *)
+Lemma globstar_sound : forall fs dg wd li fuel stack links acc out,
+  globstar_loop fuel fs dg wd li stack links acc = Some out ->
+  forall p, In p out -> In p acc \/ exists s, In s stack /\ gs_desc fs dg wd s p.
+Proof.
+  intros fs dg wd li. induction fuel as [|f IH]; intros stack links acc out H p Hp; [discriminate|].
+  simpl in H. destruct stack as [|dir st].
+  - inversion H; subst. left. exact Hp.
+  - destruct (in_strs dir links).
+    + destruct (IH _ _ _ _ H p Hp) as [Ha|(s & Hs & Hd)].
+      * destruct li; [left; exact Ha|]. apply in_app_iff in Ha. destruct Ha as [Ha|[<-|[]]]; [left; exact Ha|].
+        right. exists dir. split; [left; reflexivity|constructor].
+      * right. exists s. split; [right; exact Hs|exact Hd].
+    + destruct (glob_dir fs dir (star_matcher dg) wd) as [[new nl]|] eqn:E.
+      * destruct (IH _ _ _ _ H p Hp) as [Ha|(s & Hs & Hd)].
+        -- apply in_app_iff in Ha. destruct Ha as [Ha|[<-|[]]]; [left; exact Ha|].
+           right. exists dir. split; [left; reflexivity|constructor].
+        -- apply in_app_iff in Hs. destruct Hs as [Hs|Hs].
+           ++ right. exists dir. split; [left; reflexivity|].
+              apply gd_step with (c := s); [|exact Hd]. apply gs_child_glob_dir. exists new, nl. auto.
+           ++ right. exists s. split; [right; exact Hs|exact Hd].
+      * destruct (IH _ _ _ _ H p Hp) as [Ha|(s & Hs & Hd)].
+        -- apply in_app_iff in Ha. destruct Ha as [Ha|[<-|[]]]; [left; exact Ha|].
+           right. exists dir. split; [left; reflexivity|constructor].
+        -- right. exists s. split; [right; exact Hs|exact Hd].
+Qed.
+
+Lemma glob_dir_no_links : forall fs d matcher wd new nl,
+  no_symlinks fs -> glob_dir fs d matcher wd = Some (new, nl) -> nl = [].
+Proof.
+  intros fs d matcher wd new nl Hn H. unfold glob_dir in H.
+  destruct (read_dir fs d) as [err|ents] eqn:E; [discriminate|]. inversion H; subst. clear H.
+  set (keep := fun e : str * kind => _ && matcher (fst e)).
+  assert (Hall : forall l, (forall e, In e l -> In e ents) ->
+            filter (fun e : str * kind => match snd e with KLink _ => true | _ => false end) l = []).
+  { induction l as [|x l IHl]; intros Hsub; [reflexivity|]. simpl.
+    pose proof (Hn d ents x E (Hsub x (or_introl eq_refl))) as Hx.
+    destruct (snd x); try contradiction; apply IHl; intros e He; apply Hsub; right; exact He. }
+  rewrite Hall; [reflexivity|]. intros e He. apply filter_In in He. apply He.
+Qed.
+
+(* without symlinks (and when the fuel sufficed) nothing below a stacked directory is missed *)
+Lemma globstar_complete : forall fs dg wd li, no_symlinks fs ->
+  forall fuel stack acc out,
+  globstar_loop fuel fs dg wd li stack [] acc = Some out ->
+  (forall p, In p acc -> In p out) /\
+  (forall s p, In s stack -> gs_desc fs dg wd s p -> In p out).
+Proof.
+  intros fs dg wd li Hn. induction fuel as [|f IH]; intros stack acc out H; [discriminate|].
+  simpl in H. destruct stack as [|dir st].
+  - inversion H; subst. split; [auto|]. intros s p [].
+  - simpl in H. destruct (glob_dir fs dir (star_matcher dg) wd) as [[new nl]|] eqn:E.
+    + rewrite (glob_dir_no_links _ _ _ _ _ _ Hn E) in H. simpl in H.
+      destruct (IH _ _ _ H) as [IHa IHs]. split.
+      * intros p Hp. apply IHa. apply in_app_iff. left. exact Hp.
+      * intros s p [<-|Hs] Hd.
+        -- inversion Hd as [|d c p' Hc Hd']; subst.
+           ++ apply IHa. apply in_app_iff. right. left. reflexivity.
+           ++ apply gs_child_glob_dir in Hc. destruct Hc as (new' & nl' & E' & Hi). rewrite E in E'. inversion E'; subst.
+              apply (IHs c p); [apply in_app_iff; left; exact Hi|exact Hd'].
+        -- apply (IHs s p); [apply in_app_iff; right; exact Hs|exact Hd].
+    + destruct (IH _ _ _ H) as [IHa IHs]. split.
+      * intros p Hp. apply IHa. apply in_app_iff. left. exact Hp.
+      * intros s p [<-|Hs] Hd.
+        -- inversion Hd as [|d c p' Hc Hd']; subst.
+           ++ apply IHa. apply in_app_iff. right. left. reflexivity.
+           ++ apply gs_child_glob_dir in Hc. destruct Hc as (new' & nl' & E' & _). rewrite E in E'. discriminate.
+        -- apply (IHs s p Hs Hd).
+Qed.
+
+(* one component that is not an active "**": the new match list is exactly the step_rel image *)
+Lemma glob_step_spec : forall fs o fuel part rest matches ms,
+  (str_eqb part [42; 42] && o_star o) = false -> simple_comp part = true ->
+  glob_parts fuel fs o (part :: rest) matches = GOk ms ->
+  exists ms1, glob_parts fuel fs o rest ms1 = GOk ms /\
+    forall m', In m' ms1 <->
+      exists m, In m matches /\ step_rel fs (o_dot o) part (match rest with [] => false | _ => true end) m m'.
+Proof.
+  intros fs o fuel part rest matches ms Hgs Hsp H.
+  cbn [glob_parts] in H. unfold step_rel.
+  destruct (is_special_part part) eqn:Esp.
+  - eexists. split; [exact H|]. intros m'. rewrite in_map_iff. split.
+    + intros (m & <- & Hm). exists m. auto.
+    + intros (m & Hm & ->). exists m. auto.
+  - destruct (has_meta part) eqn:Ehm; cbn [negb] in *.
+    + rewrite Hgs in H.
+      destruct (glob_dirs fs (comp_matcher (o_dot o) part)
+                          (match rest with [] => false | _ :: _ => true end) matches) as [ms1|] eqn:Egd; [|discriminate].
+      exists ms1. split; [exact H|]. intros m'. rewrite (glob_dirs_in _ _ _ _ _ m' Egd). split.
+      * intros (d & Hd & ents & e & Er & Hie & Hk & Hm & ->). exists d. split; [exact Hd|].
+        exists ents, e. repeat split; auto.
+        -- apply keep_entry_spec. exact Hk.
+        -- apply (proj1 (comp_matcher_spec (o_dot o) part (fst e) Hsp)) in Hm. apply Hm.
+        -- apply (proj1 (comp_matcher_spec (o_dot o) part (fst e) Hsp)) in Hm. apply Hm.
+      * intros (m & Hm & ents & e & Er & Hie & Hk & Hb & ->). exists m. split; [exact Hm|].
+        exists ents, e. repeat split; auto.
+        -- apply keep_entry_spec. exact Hk.
+        -- apply comp_matcher_spec; assumption.
+    + eexists. split; [exact H|]. intros m'. rewrite in_flat_map. split.
+      * intros (m & Hm & Hi). exists m. split; [exact Hm|].
+        destruct (read_dir fs (path_join2 m part)) as [[|]|ents] eqn:Er.
+        -- destruct Hi.
+        -- destruct rest; simpl in Hi.
+           ++ destruct Hi as [<-|[]]. split; [reflexivity|]. rewrite Er. reflexivity.
+           ++ destruct Hi.
+        -- destruct Hi as [<-|[]]. split; [reflexivity|]. rewrite Er. exact I.
+      * intros (m & Hm & -> & Hc). exists m. split; [exact Hm|].
+        destruct (read_dir fs (path_join2 m part)) as [[|]|ents] eqn:Er.
+        -- destruct Hc.
+        -- rewrite Hc. left. reflexivity.
+        -- left. reflexivity.
+Qed.
+
+Definition part_ok (o : gopts) (p : str) : Prop :=
+  (str_eqb p [42; 42] && o_star o) = true \/ simple_comp p = true.
+Definition all_parts_ok (o : gopts) (parts : list str) : Prop := forall p, In p parts -> part_ok o p.
+
+Lemma globstar_part_unfold : forall fs o fuel part rest matches,
+  (str_eqb part [42; 42] && o_star o) = true ->
+  glob_parts fuel fs o (part :: rest) matches =
+  match globstar_loop fuel fs (o_dot o) (match rest with [] => false | _ => true end)
+                      (existsb (fun p => negb (str_eqb p [])) rest)
+                      (map (fun m => path_join2 m []) matches) [] [] with
+  | None => GOutOfFuel
+  | Some ms => glob_parts fuel fs o rest ms
+  end.
+Proof.
+  intros fs o fuel part rest matches H. apply andb_true_iff in H. destruct H as [H1 H2].
+  apply str_eqb_true in H1. subst part. cbn [glob_parts].
+  change (is_special_part [42; 42]) with false. change (has_meta [42; 42]) with true.
+  change (str_eqb [42; 42] [42; 42]) with true. rewrite H2. reflexivity.
+Qed.
+
+(* every path returned is a path of the tree whose components match ("**" = zero or more levels) *)
+Lemma glob_parts_gs_sound : forall fs o fuel parts matches ms,
+  all_parts_ok o parts ->
+  glob_parts fuel fs o parts matches = GOk ms ->
+  forall p, In p ms -> exists m, In m matches /\ path_rel_gs fs o parts m p.
+Proof.
+  intros fs o fuel parts. induction parts as [|part rest IH]; intros matches ms Hok H p Hp.
+  - simpl in H. inversion H; subst. exists p. split; [exact Hp|reflexivity].
+  - assert (Hok' : all_parts_ok o rest) by (intros q Hq; apply Hok; right; exact Hq).
+    cbn [path_rel_gs]. unfold step_rel_gs.
+    destruct (str_eqb part [42; 42] && o_star o) eqn:Egs.
+    + rewrite (globstar_part_unfold _ _ _ _ _ _ Egs) in H.
+      destruct (globstar_loop _ _ _ _ _ _ _ _) as [ms1|] eqn:EL; [|discriminate].
+      destruct (IH _ _ Hok' H p Hp) as (m' & Hm' & Hr).
+      destruct (globstar_sound _ _ _ _ _ _ _ _ _ EL m' Hm') as [[]|(s & Hs & Hd)].
+      apply in_map_iff in Hs. destruct Hs as (m & <- & Hm).
+      exists m. split; [exact Hm|]. exists m'. split; assumption.
+    + destruct (Hok part (or_introl eq_refl)) as [Hc|Hsp]; [congruence|].
+      destruct (glob_step_spec _ _ _ _ _ _ _ Egs Hsp H) as (ms1 & H1 & Hstep).
+      destruct (IH _ _ Hok' H1 p Hp) as (m' & Hm' & Hr).
+      apply Hstep in Hm'. destruct Hm' as (m & Hm & Hs).
+      exists m. split; [exact Hm|]. exists m'. split; assumption.
+Qed.
+
+(* ... and on a file system without symbolic links none is missed *)
+Lemma glob_parts_gs_complete : forall fs o, no_symlinks fs ->
+  forall fuel parts matches ms,
+  all_parts_ok o parts ->
+  glob_parts fuel fs o parts matches = GOk ms ->
+  forall m p, In m matches -> path_rel_gs fs o parts m p -> In p ms.
+Proof.
+  intros fs o Hn fuel parts. induction parts as [|part rest IH]; intros matches ms Hok H m p Hm Hr.
+  - simpl in H. inversion H; subst. simpl in Hr. subst. exact Hm.
+  - assert (Hok' : all_parts_ok o rest) by (intros q Hq; apply Hok; right; exact Hq).
+    cbn [path_rel_gs] in Hr. unfold step_rel_gs in Hr. destruct Hr as (m' & Hs & Hr).
+    destruct (str_eqb part [42; 42] && o_star o) eqn:Egs.
+    + rewrite (globstar_part_unfold _ _ _ _ _ _ Egs) in H.
+      destruct (globstar_loop _ _ _ _ _ _ _ _) as [ms1|] eqn:EL; [|discriminate].
+      apply (IH _ _ Hok' H m' p); [|exact Hr].
+      apply (proj2 (globstar_complete _ _ _ _ Hn _ _ _ _ EL) (path_join2 m []) m'); [|exact Hs].
+      apply in_map_iff. exists m. split; [reflexivity|exact Hm].
+    + destruct (Hok part (or_introl eq_refl)) as [Hc|Hsp]; [congruence|].
+      destruct (glob_step_spec _ _ _ _ _ _ _ Egs Hsp H) as (ms1 & H1 & Hstep).
+      apply (IH _ _ Hok' H1 m' p); [|exact Hr]. apply Hstep. exists m. split; assumption.
+Qed.
+
+Theorem glob_globstar_spec : forall fs o w l,
+  all_parts_ok o (split_slash w []) ->
+  glob fs o w = GOk l ->
+  sorted_strs l /\
+  (forall p, p <> [] -> In p l -> path_rel_gs fs o (split_slash w []) [] p) /\
+  (no_symlinks fs -> forall p, p <> [] -> path_rel_gs fs o (split_slash w []) [] p -> In p l).
+Proof.
+  intros fs o w l Hok H. unfold glob in H.
+  destruct (glob_parts 4096 fs o (split_slash w []) [[]]) as [ms| | |] eqn:E; try discriminate.
+  inversion H; subst. clear H.
+  assert (Hd : match sort_paths ms with [] :: r => r | l0 => l0 end = drop_empty (sort_paths ms))
+    by (destruct (sort_paths ms) as [|[|c h] t]; reflexivity).
+  rewrite Hd. split; [|split].
+  - apply drop_empty_sorted. apply sort_strs_sorted.
+  - intros p Hp Hi. rewrite (In_drop_empty p _ Hp) in Hi. unfold sort_paths in Hi. rewrite In_sort_strs in Hi.
+    destruct (glob_parts_gs_sound _ _ _ _ _ _ Hok E p Hi) as (m & [<-|[]] & Hr). exact Hr.
+  - intros Hn p Hp Hr. rewrite (In_drop_empty p _ Hp). unfold sort_paths. rewrite In_sort_strs.
+    apply (glob_parts_gs_complete _ _ Hn _ _ _ _ Hok E [] p); [left; reflexivity|exact Hr].
+Qed.
